@@ -387,7 +387,9 @@ def reentrant_cells(ctx):
                     if got != exp:
                         ok = False
                         ctx.violation(
-                            "C08:reentrant:%s:%s" % (ename, writer),
+                            "C08:reentrant:%s:%s%s" % (
+                                ename, writer,
+                                ":cyc" if 0 in (c0, c1, c2) else ""),
                             "a %s re-assigned root.child to %r while "
                             "root.child = %r (was %r) was being dispatched; "
                             "afterwards changing %r.value gives %d call(s), "
